@@ -373,14 +373,19 @@ impl<T> Future for ReceiveFuture<'_, T> {
                         if !this.sig.will_wake(cx.waker()) {
                             // the Waker is changed and we need to update waker in the waiting
                             // list
-                            if acquire_internal(this.internal).recv_signal_exists(&this.sig) {
+                            let internal = acquire_internal(this.internal);
+                            if internal.recv_signal_exists(&this.sig) {
                                 // signal is not shared with other thread yet so it's safe
-                                // to update waker locally
+                                // to update waker locally; the channel lock is held until
+                                // the new waker is stored, so no sender can take the
+                                // signal and read the waker meanwhile
                                 #[cfg(kanal_verif)]
                                 crate::verif::rt::probe(crate::verif::rt::probe::WAKER_REFRESH);
                                 this.sig.register_waker(cx.waker());
+                                drop(internal);
                                 Poll::Pending
                             } else {
+                                drop(internal);
                                 // the signal is already shared, and data will be available shortly,
                                 // so wait synchronously and return the result
                                 // note: it's not possible safely to update waker after the signal
